@@ -1394,3 +1394,10 @@ TABLE["C16"] += [
     B("submodule-switch-on-by-default", {"Y3"},
       ("scripts/pybind_wrap.py", "    arg_parser.add_argument(\"--is_submodule\",\n                            default=False,", "    arg_parser.add_argument(\"--is_submodule\",\n                            default=True,")),
 ]
+for _p, _r in (("C18", "K14"), ("C11", "H12")):
+    TABLE[_p] += [
+        B("unsigned-64-bit-scalars-read-as-double", {_r},
+          (H, "    case mxUINT64_CLASS:\n      return (T) *(std::uint64_t*) mxGetData(array);\n", "")),
+        B("signed-64-bit-scalars-read-as-unsigned", {_r},
+          (H, "      return (T) *(std::int64_t*) mxGetData(array);", "      return (T) *(std::uint64_t*) mxGetData(array);")),
+    ]
